@@ -897,13 +897,14 @@ example : ([1, 2] : List ℝ).length = ([2, 1] : List ℝ).length
 noncomputable def hellR (x y : List ℝ) : ℝ :=
   sumL ((x.zip y).map (fun p => Real.sqrt (p.1 * p.2)))
 
-/-- the branches of `hellinger`. -/
+/-- the branches of `hellinger` (the radicand clamp `max 0 ·` of the code is invisible over ℝ:
+    `sqrt_maxV_zero`). -/
 theorem hellinger_eq (x y : List ℝ) :
     hellinger realT x y =
       if sumL x = 0 ∧ sumL y = 0 then 0
       else if sumL x = 0 ∨ sumL y = 0 then 1
       else Real.sqrt (1 - hellR x y / Real.sqrt (sumL x * sumL y)) := by
-  simp only [hellinger, Bool.and_eq_true, Bool.or_eq_true, eqV_iff, realT]
+  simp only [hellinger, Bool.and_eq_true, Bool.or_eq_true, eqV_iff, realT, sqrt_maxV_zero]
   rfl
 
 theorem hellR_symm (x y : List ℝ) : hellR y x = hellR x y := by
